@@ -33,7 +33,7 @@ func selfTestImpl(prop, dir string) any {
 		}
 	}
 	res := make([]mutantResult, len(ms))
-	sem := make(chan struct{}, 3) // each variant is type-checked from source (about 3 GB, 15 s); a variant that stays open goes through up to four normal forms (up to ~13 GB, a minute or more)
+	sem := make(chan struct{}, 5) // each variant is type-checked from source (about 3 GB, 15 s); a variant that stays open goes through further normal forms (peak about 6 GB, up to a minute or two)
 	var wg sync.WaitGroup
 	for i, m := range ms {
 		wg.Add(1)
